@@ -22,3 +22,5 @@ Definition stringify_parse_roundtrip := ProofsSer.stringify_parse_roundtrip.
 Definition gap_of_number_ws := ProofsSer.gap_of_number_ws.
 Definition marshal_agrees := ProofsSer.marshal_agrees.
 Definition symbol_wrapper_is_object := ProofsSer.symbol_wrapper_is_object.
+Definition history_result_stable := ProofsSer.history_result_stable.
+Definition history_marshal_is_stringify := ProofsSer.history_marshal_is_stringify.
